@@ -68,7 +68,7 @@ ADDED = {
     "C13": "; socket file names with special first bytes (@ - ~ # % : blank) as bare relative paths, buffered Unix sinks addressed relatively; address lists whose first entry is of the other family than the socket (first address is the destination, the second stays silent)",
     "C16": "; every fourth history runs against a wrapped sink whose flush() fails with an error of its own (only a caller's flush may see it: a handler call carrying it is handler-without-failure)",
     "C17": "; macros invoked from a thread-local destructor at thread exit (client set); a process killed by a signal counts",
-    "C19": "; W5: metrics refused by a wrapper in front of the buffered sink give no reason to write; miri_time (hour-long pauses on Miri's virtual clock: direct, behind an idle queue, after dropping one of two handles) and seven histories with real pauses of 1.3 / 2.6 s - nothing is written 'after a while'",
+    "C19": "; rule F4 is also judged on the random W1 / spy / socket histories with injected write failures (every error kind incl. WouldBlock, kernel EAGAIN): a refused write is no reason to write early later; W5: metrics refused by a wrapper in front of the buffered sink give no reason to write; miri_time (hour-long pauses on Miri's virtual clock: direct, behind an idle queue, after dropping one of two handles) and seven histories with real pauses of 1.3 / 2.6 s - nothing is written 'after a while'",
     "C20": "; area tls: metrics recorded from thread-local destructors at thread exit (queue, client over queue, buffered spy, client with handler); miri_api: a tour of the whole public API under Miri (UB / data races of the paths reached, lines compared with literals)",
 }
 
@@ -265,7 +265,14 @@ def _c06(bindir, tier, seed):
 
 @plan("C19")
 def _c19(bindir, tier, seed):
-    return frame_jobs(bindir, "C19", tier, seed, False)
+    # "writes only when it must" does not depend on what failed earlier either: a refused write (whatever its error kind)
+    # is no reason to write early later on - rule F4 is also judged on the random / spy / socket histories with injected
+    # write failures and on the enumerated fault DFS
+    jobs = frame_jobs(bindir, "C19", tier, seed, False)
+    faulty = [j for j in frame_jobs(bindir, "C19", tier, seed, True) if "fuzz" not in j.name and "delegatefaults" not in j.name]
+    for j in faulty:
+        j.name = j.name.replace("C19-", "C19-faulty-")
+    return jobs + faulty
 
 
 @plan("C07")
